@@ -296,3 +296,9 @@ Proof.
   split; [reflexivity|]. unfold xstep. destruct (x_stopped s); [reflexivity|].
   destruct e; try reflexivity. unfold gen_status_lost. cbn [andb]. destruct (x_completed s); reflexivity.
 Qed.
+
+(** ** the boxes of the region operations: offset, and offset + size *)
+From VD Require Import Model.Expect.
+Theorem region_boxes_are_source x y w h :
+  gen_expect_box x y w h = region_box x y w h /\ gen_capture_region_box x y w h = (x, y, x + w, y + h).
+Proof. split; reflexivity. Qed.
